@@ -157,6 +157,8 @@ class Sym:
             e = e.a
         if isinstance(e, (_np.ndarray,)):
             return NotImplemented
+        if hasattr(e, "generic_power_of"):
+            return e.generic_power_of(self)  # exponent that contains a symbolic extent (engine/generic.py): an opaque positive atom
         if isinstance(e, (float, _np.floating)):
             e = _frac_of_float(float(e))
         elif isinstance(e, (int, _np.integer)):
